@@ -13,15 +13,18 @@ OptEq(so, oo) ==
   /\ oo.env = so.env /\ oo.envKey = so.envKey /\ oo.envDelim = so.envDelim
 OptsEq(ss, os) == Len(ss) = Len(os) /\ \A i \in 1..Len(ss) : OptEq(ss[i], os[i])
 
+GroupsEq(mg, og) ==
+  /\ Len(mg) = Len(og)
+  /\ \A i \in 1..Len(mg) : /\ og[i].desc = mg[i].desc /\ og[i].longDesc = mg[i].longDesc
+                            /\ og[i].ns = mg[i].ns /\ og[i].envNs = mg[i].envNs /\ og[i].hidden = mg[i].hidden
 ModelEq(m, o) ==
   /\ OptsEq(m.opts, o.opts)
-  /\ Len(m.groups) = Len(o.groups)
-  /\ \A i \in 1..Len(m.groups) : /\ o.groups[i].desc = m.groups[i].desc /\ o.groups[i].longDesc = m.groups[i].longDesc
-                                  /\ o.groups[i].ns = m.groups[i].ns /\ o.groups[i].envNs = m.groups[i].envNs /\ o.groups[i].hidden = m.groups[i].hidden
+  /\ GroupsEq(m.groups, o.groups)
   /\ Len(m.cmds) = Len(o.cmds)
   /\ \A i \in 1..Len(m.cmds) : /\ o.cmds[i].name = m.cmds[i].name /\ o.cmds[i].desc = m.cmds[i].desc /\ o.cmds[i].longDesc = m.cmds[i].longDesc
                                 /\ o.cmds[i].subOpt = m.cmds[i].subOpt /\ o.cmds[i].aliases = m.cmds[i].aliases /\ o.cmds[i].hidden = m.cmds[i].hidden
-                                /\ OptsEq(m.cmds[i].opts, o.cmds[i].opts)
+                                /\ OptsEq(m.cmds[i].opts, o.cmds[i].opts) /\ GroupsEq(m.cmds[i].groups, o.cmds[i].groups)
+                                /\ o.cmds[i].nsub = m.cmds[i].nsub /\ o.cmds[i].nargs = m.cmds[i].nargs
   /\ Len(m.args) = Len(o.args)
   /\ \A i \in 1..Len(m.args) : o.args[i].name = m.args[i].name /\ o.args[i].desc = m.args[i].desc /\ o.args[i].req = m.args[i].req /\ o.args[i].max = m.args[i].max
   /\ o.argsReq = m.argsReq
